@@ -24,15 +24,21 @@ LexLess(c1, c2) == IF c2 = <<>> THEN FALSE
 
 CmpOps == {"equal", "less_than", "less_than_or_equal", "greater_than", "greater_than_or_equal"}
 
+AdjOf(t)  == IF t.k = "int" /\ t.s = "+1" THEN 1 ELSE IF t.k = "int" /\ t.s = "-1" THEN -1 ELSE 0
+BaseOf(t) == IF t.k = "int" THEN Val(t.n, t.e) ELSE ValOf(t)
 (* x, y are constants: "lt" | "eq" | "gt" | "none" (not comparable)            *)
 Order(x, y) ==
     IF x.k = "atom" /\ y.k = "atom"
     THEN (IF x.s = y.s THEN "eq"
           ELSE IF LexLess(AtomCodes[x.s], AtomCodes[y.s]) THEN "lt" ELSE "gt")
     ELSE IF IsNum(x) /\ IsNum(y)
-    THEN (IF ~Finite(ValOf(x)) \/ ~Finite(ValOf(y)) THEN "none"
-          ELSE IF EqV(ValOf(x), ValOf(y)) THEN "eq"
-          ELSE IF LessV(ValOf(x), ValOf(y)) THEN "lt" ELSE "gt")
+    THEN (IF ~Finite(BaseOf(x)) \/ ~Finite(BaseOf(y)) THEN "none"
+          ELSE IF ~EqV(BaseOf(x), BaseOf(y)) THEN (IF LessV(BaseOf(x), BaseOf(y)) THEN "lt" ELSE "gt")
+          (* the same power of two: two integers are told apart by their +1 / -1; next to a float the      *)
+          (* integer is converted first, and the neighbours of 2^54 and more convert to the power itself    *)
+          ELSE IF x.k = "int" /\ y.k = "int"
+          THEN (IF AdjOf(x) = AdjOf(y) THEN "eq" ELSE IF AdjOf(x) < AdjOf(y) THEN "lt" ELSE "gt")
+          ELSE "eq")
     ELSE "none"
 
 CmpSem(op, args, b) ==
